@@ -102,13 +102,9 @@ Fixpoint check (w : writer) (ss : list stepobs) : bool :=
           let '(oc2, w2, o2) := saturate (qsize w1) 0 w1 in
           match oc2 with
           | Fine =>
-              (* on reconnect the unacknowledged packets come back in the iteration order of a Go
-                 sync.Map: compare that step as a multiset, every other step as a sequence *)
-              (sblind s ||
-               match sev s with
-               | EOpen _ => list_eqb wobs_eqb (wsort (map obs_of (o ++ o2))) (wsort (swire s))
-               | _ => list_eqb wobs_eqb (map obs_of (o ++ o2)) (swire s)
-               end) && check w2 r
+              (* every step as a sequence - also the reconnect: what was unacknowledged comes back in the order in
+                 which it was transmitted, and before anything that has never been transmitted *)
+              (sblind s || list_eqb wobs_eqb (map obs_of (o ++ o2)) (swire s)) && check w2 r
           | _ => false
           end
       | _ => false
